@@ -233,6 +233,7 @@ structure State where
   restoreUserType : String := ""      -- error type of the runtime's restore/init error report
   credKey : Option String := none     -- credentials service: the access key served for the instance token
   shutFrom : Nat := 0                 -- who asked for the running reset/shutdown
+  resetErr : Bool := false            -- standalone mode: a fatal error recorded during the reset's shutdown makes Reset() return it
   awaitingExit : List String := []    -- agentsAwaitingExit keys
   watcherStarted : Bool := false
   -- shutdown bookkeeping
